@@ -18,6 +18,7 @@ def run(facts, tier):
         ("overload siblings", B.overload_siblings, 20, "update(T), query(T), query_and_update(T) canonicalise and hash identically"),
         ("reset completeness", lambda fa: c19_rules.reset_completeness(fa, ['bloom_filter_alloc']), 2, "every field a mutator modifies is re-initialised by reset() (a reused object equals a fresh one); reviewed exceptions are configuration fields"),
         ("emptiness predicate support", lambda fa: predicates.obligations(fa, ['bloom_filter_alloc']), 2, "the emptiness predicate still consults every field it depended on in the reviewed tree (spec/predicates.json)"),
+        ("bit-array extents", B.extent_units, 10, "every fill / copy / count / combine / write of the bit array covers exactly capacity_bits_ >> 3 bytes"),
         ("tautologies", lambda fa: generic_lints.tautologies(fa, ('filters/',)), 2, "no comparison / assignment / min-max with two identical operands, no if-else with identical arms"),
         ("hazards", lambda fa: hazard_lints.hazards(fa, ('filters/',)), 2, "no 64-bit value silently narrowed at a call of a library function, no numeric_limits<floating>::min() as a lowest value, no random engine constructed inside a loop, no read of a moved-from parameter, no unguarded unsigned `x - c` loop bound (reviewed instances in spec/hazards.json)"),
         ("duplicate operands", lambda fa: generic_lints.duplicate_conjuncts(fa, ('filters/',)), 2, "no logical chain tests the same operand twice (copy-paste of the wrong peer)"),
